@@ -1,8 +1,10 @@
 """x_val — translate lsprotocol/validators.py (integer_validator, uinteger_validator) into the IR of coq/Val.v.
 
 Grammar (fail-closed): module-level integer constants built from literals with ** - + * and unary minus;
-def f(instance, attribute, value): [docstring] if <cond>: [name = attribute.name if hasattr(attribute,"name") else str(attribute)]
-raise ValueError(<f-string or string>) ; return True
+def f(instance, attribute, value): a statement list of: docstrings, single-assignment locals (substituted), if/else, raise
+ValueError(<f-string | helper(...) returning an f-string>), return <constant>, calls of module-level helper functions with the
+same statement grammar (inlined).  The body is executed symbolically into a decision tree; the validator raises iff the
+disjunction of its raising paths holds; all raising paths must carry the same message.
 <cond>: isinstance(value, int), comparisons (also chained) over constants and `value`, not/and/or.
 Cross-check at run time: the functions attrs fields refer to are these module functions (done by x_pkg via identity).
 usage: x_val.py <out.v>
@@ -68,6 +70,141 @@ def main(out):
             return "(BConst %s)" % str(e.value).lower()
         raise Reject("condition outside grammar: " + ast.unparse(e))
 
+    import copy
+    helpers = {n.name: n for n in tree.body if isinstance(n, ast.FunctionDef)}
+
+    class Sub(ast.NodeTransformer):
+        def __init__(self, env):
+            self.env = env
+
+        def visit_Name(self, node):
+            if isinstance(node.ctx, ast.Load) and node.id in self.env:
+                return copy.deepcopy(self.env[node.id])
+            return node
+
+    def sub(e, env):
+        return Sub(env).visit(copy.deepcopy(e)) if env else e
+
+    def band(a, b):
+        if a == "(BConst true)":
+            return b
+        if b == "(BConst true)":
+            return a
+        if "(BConst false)" in (a, b):
+            return "(BConst false)"
+        return "(BAnd %s %s)" % (a, b)
+
+    def bor(a, b):
+        if a == "(BConst false)":
+            return b
+        if b == "(BConst false)":
+            return a
+        if "(BConst true)" in (a, b):
+            return "(BConst true)"
+        return "(BOr %s %s)" % (a, b)
+
+    def bnot(a):
+        return {"(BConst true)": "(BConst false)", "(BConst false)": "(BConst true)"}.get(a, "(BNot %s)" % a)
+
+    def message_parts(m, inst, attr, value, depth=0):
+        """parts of the ValueError message; the message may be built by a helper returning an f-string"""
+        if isinstance(m, ast.Call) and isinstance(m.func, ast.Name) and m.func.id in helpers and not m.keywords and depth < 3:
+            fn = helpers[m.func.id]
+            params = [a.arg for a in fn.args.args]
+            if len(params) != len(m.args):
+                raise Reject("helper arity " + m.func.id)
+            env = dict(zip(params, m.args))
+            body = [st for st in fn.body if not (isinstance(st, ast.Expr) and isinstance(st.value, ast.Constant))]
+            for st in body[:-1]:
+                if isinstance(st, ast.Assign) and len(st.targets) == 1 and isinstance(st.targets[0], ast.Name):
+                    env[st.targets[0].id] = sub(st.value, env)
+                else:
+                    raise Reject("helper body outside grammar: " + m.func.id)
+            if not body or not isinstance(body[-1], ast.Return) or body[-1].value is None:
+                raise Reject("helper body outside grammar: " + m.func.id)
+            return message_parts(sub(body[-1].value, env), inst, attr, value, depth + 1)
+        parts = []
+        vals = m.values if isinstance(m, ast.JoinedStr) else [m]
+        name_srcs = ("%s.name if hasattr(%s, 'name') else str(%s)" % (attr, attr, attr), "%s.name" % attr)
+        for p_ in vals:
+            if isinstance(p_, ast.Constant) and isinstance(p_.value, str):
+                parts.append("MLit %s" % q(p_.value))
+            elif isinstance(p_, ast.FormattedValue):
+                src = ast.unparse(p_.value)
+                if src in ("%s.__class__.__qualname__" % inst, "%s.__class__.__name__" % inst, "type(%s).__name__" % inst, "type(%s).__qualname__" % inst):
+                    parts.append("MClass")
+                elif src in name_srcs:
+                    parts.append("MAttr")
+                elif src == value:
+                    parts.append("MValue")
+                else:
+                    try:
+                        parts.append("MBound %s" % aexp(p_.value))
+                    except Reject:
+                        raise Reject("message part outside grammar: " + src)
+            else:
+                raise Reject("message part outside grammar")
+        return parts
+
+    def run_block(stmts, env, names, depth=0):
+        """decision tree of a statement list: ('if', cond, T, F) | ('raise', is_ve, parts) | ('ret', is_true) | ('fall',)"""
+        inst, attr, value = names
+        stmts = [st for st in stmts if not (isinstance(st, ast.Expr) and isinstance(st.value, ast.Constant))]
+        if not stmts:
+            return ("fall",)
+        st, rest = stmts[0], stmts[1:]
+        if isinstance(st, ast.Assign) and len(st.targets) == 1 and isinstance(st.targets[0], ast.Name) and st.targets[0].id not in names:
+            return run_block(rest, dict(env, **{st.targets[0].id: sub(st.value, env)}), names, depth)
+        if isinstance(st, ast.If):
+            c = bexp(sub(st.test, env), value)
+            return ("if", c, run_block(list(st.body) + rest, env, names, depth), run_block(list(st.orelse) + rest, env, names, depth))
+        if isinstance(st, ast.Return):
+            v = sub(st.value, env) if st.value is not None else None
+            if isinstance(v, ast.Call) and isinstance(v.func, ast.Name) and v.func.id in helpers:
+                return call_helper(v, env, names, depth, [])
+            return ("ret", isinstance(v, ast.Constant) and v.value is True)
+        if isinstance(st, ast.Raise) and st.exc is not None:
+            exc = sub(st.exc, env)
+            is_ve = isinstance(exc, ast.Call) and isinstance(exc.func, ast.Name) and exc.func.id == "ValueError" and len(exc.args) == 1
+            return ("raise", is_ve, message_parts(exc.args[0], inst, attr, value) if is_ve else [])
+        if isinstance(st, ast.Expr) and isinstance(st.value, ast.Call) and isinstance(st.value.func, ast.Name) and st.value.func.id in helpers:
+            return call_helper(sub(st.value, env), env, names, depth, rest)
+        raise Reject("statement outside grammar: " + ast.unparse(st))
+
+    def call_helper(call, env, names, depth, rest):
+        """inline a helper that takes (instance, attribute, value, ...constants): its raise is the caller's raise, its return falls
+        through to the caller's continuation (as an expression statement) or is the caller's return value"""
+        if depth > 3 or call.keywords:
+            raise Reject("helper call outside grammar: " + ast.unparse(call))
+        fn = helpers[call.func.id]
+        params = [a.arg for a in fn.args.args]
+        if len(params) != len(call.args) or fn.decorator_list:
+            raise Reject("helper arity " + call.func.id)
+        henv = {}
+        for prm, arg in zip(params, call.args):
+            if isinstance(arg, ast.Name) and arg.id in names:
+                if prm != arg.id:
+                    henv[prm] = arg
+            else:
+                henv[prm] = arg
+        t = run_block(fn.body, henv, names, depth + 1)
+
+        def graft(tr):
+            if tr[0] == "if":
+                return ("if", tr[1], graft(tr[2]), graft(tr[3]))
+            if tr[0] in ("ret", "fall") and rest is not None and rest != []:
+                return run_block(rest, env, names, depth)
+            return tr
+        return graft(t)
+
+    def raise_cond(tr):
+        if tr[0] == "if":
+            return bor(band(tr[1], raise_cond(tr[2])), band(bnot(tr[1]), raise_cond(tr[3])))
+        return "(BConst true)" if tr[0] == "raise" else "(BConst false)"
+
+    def leaves(tr):
+        return leaves(tr[2]) + leaves(tr[3]) if tr[0] == "if" else [tr]
+
     rows = []
     for node in tree.body:
         if isinstance(node, ast.Assign) and len(node.targets) == 1 and isinstance(node.targets[0], ast.Name):
@@ -76,48 +213,17 @@ def main(out):
             args = [a.arg for a in node.args.args]
             if len(args) != 3 or node.decorator_list:
                 raise Reject("signature of " + node.name)
-            inst, attr, value = args
-            body = [s for s in node.body if not (isinstance(s, ast.Expr) and isinstance(s.value, ast.Constant))]
-            if len(body) != 2 or not isinstance(body[0], ast.If) or body[0].orelse or not isinstance(body[1], ast.Return):
-                raise Reject("body shape of " + node.name)
-            ret_true = isinstance(body[1].value, ast.Constant) and body[1].value.value is True
-            cond = bexp(body[0].test, value)
-            inner = body[0].body
-            name_var = None
-            if len(inner) == 2 and isinstance(inner[0], ast.Assign) and len(inner[0].targets) == 1 and isinstance(inner[0].targets[0], ast.Name):
-                src = ast.unparse(inner[0].value)
-                if src not in ("%s.name if hasattr(%s, 'name') else str(%s)" % (attr, attr, attr), "%s.name" % attr):
-                    raise Reject("name assignment outside grammar: " + src)
-                name_var = inner[0].targets[0].id
-                inner = inner[1:]
-            if len(inner) != 1 or not isinstance(inner[0], ast.Raise) or inner[0].exc is None:
-                raise Reject("raise shape of " + node.name)
-            exc = inner[0].exc
-            is_ve = isinstance(exc, ast.Call) and isinstance(exc.func, ast.Name) and exc.func.id == "ValueError"
-            parts = []
-            if is_ve and len(exc.args) == 1:
-                m = exc.args[0]
-                vals = m.values if isinstance(m, ast.JoinedStr) else [m]
-                for p in vals:
-                    if isinstance(p, ast.Constant) and isinstance(p.value, str):
-                        parts.append("MLit %s" % q(p.value))
-                    elif isinstance(p, ast.FormattedValue):
-                        s = ast.unparse(p.value)
-                        if s in ("%s.__class__.__qualname__" % inst, "%s.__class__.__name__" % inst, "type(%s).__name__" % inst, "type(%s).__qualname__" % inst):
-                            parts.append("MClass")
-                        elif (name_var and s == name_var) or s == "%s.name" % attr:
-                            parts.append("MAttr")
-                        elif s == value:
-                            parts.append("MValue")
-                        else:
-                            try:
-                                parts.append("MBound %s" % aexp(p.value))
-                            except Reject:
-                                raise Reject("message part outside grammar: " + s)
-                    else:
-                        raise Reject("message part outside grammar")
+            tr = run_block(node.body, {}, tuple(args))
+            lv = leaves(tr)
+            raises = [l for l in lv if l[0] == "raise"]
+            rets = [l for l in lv if l[0] != "raise"]
+            if not raises or not rets:
+                raise Reject("body shape of " + node.name + ": needs a raising and a returning path")
+            if any(r[2] != raises[0][2] or r[1] != raises[0][1] for r in raises):
+                raise Reject("different messages on different raising paths of " + node.name)
+            ret_true = all(l[0] == "ret" and l[1] for l in rets)
             rows.append("Definition %s : validator := {| v_cond := %s; v_msg := [%s]; v_raises_valueerror := %s; v_ret_true := %s |}."
-                        % (node.name, cond, "; ".join(parts), str(is_ve).lower(), str(ret_true).lower()))
+                        % (node.name, raise_cond(tr), "; ".join(raises[0][2]), str(bool(raises[0][1])).lower(), str(ret_true).lower()))
     if len(rows) != 2:
         raise Reject("expected exactly integer_validator and uinteger_validator")
     txt = ("(* generated by lib/x_val.py from packages/python/lsprotocol/validators.py — do not edit *)\n"
